@@ -545,6 +545,8 @@ gccUnit(Foam foam, String name)
 	assert(foamTag(foam) == FOAM_Unit);
 
 	gcvLvl	  = 0;
+	gcvNBInts = 0;
+	gcvNRRFmt = 0;
 	gcvGlo	  = foamUnitGlobals(foam);
 	gcvConst  = foamUnitConstants(foam);
 	gcvFluids  = foamUnitFluids(foam);
